@@ -383,5 +383,6 @@ def run(ctx):
     labels.r_label_tables(ctx, "C08.R4")
     r5_no_todo(ctx)
     c05.r6_error_unwinding(ctx, "C08.R7")
+    common.r_stack_discipline(ctx, "C08.R8")
     from . import panics
     panics.r_audit(ctx, "C08.R6", scope="backend")
